@@ -1,6 +1,995 @@
-//! Monitor for C39 (see /verif/DESIGN.md §5 C39).
-use vcommon::Args;
+//! Monitor for C39 (see /verif/DESIGN.md §5 C39): the competition leaderboard is the top traders by
+//! volume; volume-triggered extensions respect their bounds.
+//!
+//! Two drivers feed one reference model (map trader → cumulative counted volume):
+//! * direct: `on_created / on_updated / on_executed / on_closed` sent to the competition program with the
+//!   store's callback-authority PDA listed as transaction signer and a fabricated `TradeData` account;
+//! * real orders: the store's `create_order_v2` / `execute_*_order_v2` / `close_order_v2` with callback
+//!   accounts pointing at the competition program; the model consumes exactly what the store's CPI
+//!   carried (success flag, trade-event account).
+use crate::world::{
+    competition::*,
+    exchange::{self, OrderKind, OrderReq},
+    new_svm, World, LAMPORTS, UNIT,
+};
+use anchor_lang::{prelude::Pubkey, Discriminator};
+use gmsol_competition as comp;
+use gmsol_competition::states::{Competition, Participant};
+use gmsol_store::events::TradeData;
+use hostsvm::{key, token, Svm, TxError, TxMeta};
+use std::collections::{BTreeMap, BTreeSet};
+use vcommon::{json, serde_json::Value, Args, Monitor, Rng};
 
-pub fn run(_args: &Args) -> Option<i32> {
-    None
+const MAX_BOARD: usize = 5;
+
+// ------------------------------------------------------------------------------------------------
+// Reference model + oracle (shared by both drivers)
+
+#[derive(Default, Clone)]
+struct Model {
+    /// Existing participants → cumulative counted volume (saturating at `u128::MAX`, as a `u128` total must).
+    volumes: BTreeMap<Pubkey, u128>,
+    /// Traders with at least one counted trade.
+    counted: BTreeSet<Pubkey>,
+}
+
+/// One `on_executed` delivery as the competition program received it.
+#[derive(Clone, Debug)]
+struct ExecInput {
+    /// Signed by the store's callback authority with the arguments the store uses for orders.
+    from_store: bool,
+    success: bool,
+    trader: Pubkey,
+    /// `(user, before.size_in_usd, after.size_in_usd)` of the trade event, if one was passed.
+    event: Option<(Pubkey, u128, u128)>,
+    now: i64,
+}
+
+fn short(k: &Pubkey) -> String {
+    k.to_string().chars().take(6).collect()
+}
+
+fn board_json(c: &Competition) -> Value {
+    json!(c.leaderboard.iter().map(|e| json!({"trader": short(&e.address), "volume": e.volume.to_string()})).collect::<Vec<_>>())
+}
+
+fn model_json(model: &Model) -> Value {
+    json!(model.volumes.iter().map(|(k, v)| json!({"trader": short(k), "volume": v.to_string(), "counted": model.counted.contains(k)})).collect::<Vec<_>>())
+}
+
+/// End-time bounds, checked across *every* successful instruction.
+fn check_end_time(m: &mut Monitor, pre: &Competition, post: &Competition, now: i64, wit: &dyn Fn(Value) -> Value) {
+    let (old, new) = (pre.end_time as i128, post.end_time as i128);
+    if new < old {
+        m.violation("C39:extension:end_time_moved_earlier", wit(json!({"old_end": pre.end_time, "new_end": post.end_time, "now": now})));
+    }
+    let limit = old.max(now as i128 + pre.extension_cap as i128);
+    if new > limit {
+        m.violation(
+            "C39:extension:end_time_past_cap",
+            wit(json!({"old_end": pre.end_time, "new_end": post.end_time, "now": now, "extension_cap": pre.extension_cap, "limit": limit.to_string()})),
+        );
+    }
+    if new > old {
+        m.count("extension_moved_end");
+        let proposed = old + pre.extension_duration as i128;
+        if new == proposed.min(i64::MAX as i128) && new < now as i128 + pre.extension_cap as i128 {
+            m.count("extension_full_duration");
+        } else if new == (now as i128 + pre.extension_cap as i128).min(i64::MAX as i128) {
+            m.count("extension_clipped_at_trigger_plus_cap");
+        }
+    }
+}
+
+/// Leaderboard oracle.
+fn check_board(m: &mut Monitor, post: &Competition, model: &Model, wit: &dyn Fn(Value) -> Value) {
+    let lb = &post.leaderboard;
+    let w = |what: &str| wit(json!({"what": what, "leaderboard": board_json(post), "model": model_json(model)}));
+    if lb.len() > MAX_BOARD {
+        m.violation("C39:leaderboard:more_than_five", w("more than five entries"));
+        return;
+    }
+    let distinct: BTreeSet<Pubkey> = lb.iter().map(|e| e.address).collect();
+    if distinct.len() != lb.len() {
+        m.violation("C39:leaderboard:duplicate_trader", w("a trader appears twice"));
+        return;
+    }
+    if lb.windows(2).any(|p| p[0].volume < p[1].volume) {
+        m.violation("C39:leaderboard:not_sorted", w("volumes are not non-increasing"));
+        return;
+    }
+    for e in lb.iter() {
+        match model.volumes.get(&e.address) {
+            Some(v) if *v == e.volume => {}
+            _ => {
+                m.violation("C39:leaderboard:stale_or_wrong_volume", w(&format!("entry of {} does not show the trader's latest volume", short(&e.address))));
+                return;
+            }
+        }
+    }
+    if lb.len() == MAX_BOARD {
+        m.count("board_full_checks");
+        let last = lb[MAX_BOARD - 1].volume;
+        let mut off = 0u64;
+        for (k, v) in model.volumes.iter() {
+            if distinct.contains(k) {
+                continue;
+            }
+            off += 1;
+            if *v > last {
+                m.violation("C39:leaderboard:left_off_with_more_volume", w(&format!("{} has more volume than the last entry", short(k))));
+                return;
+            }
+            if *v == last && *v > 0 {
+                m.count("tie_with_last_entry_left_off");
+            }
+        }
+        m.max("max_participants_left_off_full_board", off);
+        if off > 0 {
+            m.count("board_full_with_participants_left_off");
+        }
+    } else {
+        // Title of the property (“is the top traders”): nobody with counted volume is missing from a board that still has room.
+        for k in model.counted.iter() {
+            if model.volumes.contains_key(k) && !distinct.contains(k) {
+                m.violation("C39:leaderboard:counted_trader_missing_from_open_board", w(&format!("{} traded but is not on a board with free slots", short(k))));
+                return;
+            }
+        }
+    }
+    if lb.windows(2).any(|p| p[0].volume == p[1].volume) {
+        m.count("board_with_equal_volumes");
+    }
+    m.max("max_board_len", lb.len() as u64);
+}
+
+/// Apply one successful `on_executed` to the model and run all oracles on the post-state.
+fn after_on_executed(
+    m: &mut Monitor,
+    model: &mut Model,
+    pre: &Competition,
+    post: &Competition,
+    part_post: Option<&Participant>,
+    input: &ExecInput,
+    wit: &dyn Fn(Value) -> Value,
+) {
+    m.eval();
+    let in_window = input.now >= pre.start_time && input.now <= pre.end_time;
+    let vol = input.event.map(|(_, before, after)| if pre.only_count_increase { after.saturating_sub(before) } else { after.abs_diff(before) });
+    let owned = input.event.map(|(u, _, _)| u == input.trader).unwrap_or(false);
+    let counted = input.from_store && input.success && in_window && owned && vol.unwrap_or(0) > 0;
+    if counted {
+        let v = vol.unwrap_or(0);
+        match model.volumes.get_mut(&input.trader) {
+            Some(x) => {
+                if x.checked_add(v).is_none() {
+                    m.count("volume_saturated_at_u128_max");
+                }
+                *x = x.saturating_add(v);
+                model.counted.insert(input.trader);
+                m.count("trades_counted");
+                m.count(if input.event.map(|(_, b, a)| a >= b).unwrap_or(true) { "trades_counted_increase" } else { "trades_counted_decrease" });
+            }
+            None => {
+                m.violation("C39:on_executed:counted_without_participant", wit(json!({"input": format!("{input:?}")})));
+                return;
+            }
+        }
+    } else {
+        m.count(if !input.from_store {
+            "ignored_not_from_store"
+        } else if !input.success {
+            "ignored_failed_order"
+        } else if !in_window {
+            if input.now < pre.start_time {
+                "ignored_before_start"
+            } else {
+                "ignored_after_end"
+            }
+        } else if input.event.is_none() {
+            "ignored_no_trade_event"
+        } else {
+            "ignored_zero_volume"
+        });
+    }
+    if let (Some(p), Some(v)) = (part_post, model.volumes.get(&input.trader)) {
+        if p.volume != *v {
+            m.violation(
+                "C39:on_executed:participant_volume_mismatch",
+                wit(json!({"input": format!("{input:?}"), "participant_volume": p.volume.to_string(), "model_volume": v.to_string(), "counted_by_model": counted})),
+            );
+            return;
+        }
+        if counted && post.end_time == pre.end_time && post.extension_triggerer == Some(input.trader) && p.merged_volume == 0 {
+            m.count("extension_triggered_without_moving_end");
+        }
+    }
+    check_end_time(m, pre, post, input.now, wit);
+    check_board(m, post, model, wit);
+    if counted {
+        let mut sig = Vec::new();
+        for e in post.leaderboard.iter() {
+            sig.extend_from_slice(&e.volume.to_le_bytes());
+        }
+        sig.extend_from_slice(&vol.unwrap_or(0).to_le_bytes());
+        sig.extend_from_slice(&(input.now - pre.start_time).to_le_bytes());
+        m.nontrivial(&sig);
+    }
+}
+
+fn err_class(e: &TxError) -> String {
+    match e {
+        TxError::Program(anchor_lang::solana_program::program_error::ProgramError::Custom(c)) => format!("custom_{c}"),
+        TxError::Program(_) => "program_error".into(),
+        TxError::Panic(_) => "panic".into(),
+        TxError::Runtime(s) => format!("runtime_{}", s.split_whitespace().next().unwrap_or("")).chars().filter(|c| c.is_alphanumeric() || *c == '_').collect(),
+    }
+}
+
+// ------------------------------------------------------------------------------------------------
+// Driver 1: direct callbacks with fabricated trade events
+
+struct Direct {
+    svm: Svm,
+    payer: Pubkey,
+    comp: Pubkey,
+    traders: Vec<Pubkey>,
+    model: Model,
+    td: Pubkey,
+    log: Vec<String>,
+    tag: String,
+    params: CompParams,
+}
+
+fn gen_params(rng: &mut Rng, now: i64) -> CompParams {
+    let start_time = now + rng.range(1, 50) as i64;
+    let extreme = rng.chance(1, 12);
+    let len: i64 = if extreme {
+        *rng.pick(&[i64::MAX - start_time - 1, i64::MAX / 2, 1])
+    } else {
+        match rng.below(4) {
+            0 => rng.range(5, 60) as i64,
+            1 => rng.range(60, 3_600) as i64,
+            _ => rng.range(3_600, 1_000_000) as i64,
+        }
+    };
+    let extension_duration: i64 = if extreme {
+        *rng.pick(&[1, i64::MAX, i64::MAX / 2])
+    } else {
+        match rng.below(3) {
+            0 => rng.range(1, 10) as i64,
+            1 => rng.range(10, 1_000) as i64,
+            _ => rng.range(1_000, 200_000) as i64,
+        }
+    };
+    // cap >= duration is required; make "cap in the past of the end", "cap clips" and "cap far away" all common.
+    let extension_cap: i64 = if extreme {
+        *rng.pick(&[extension_duration, i64::MAX])
+    } else {
+        match rng.below(4) {
+            0 => extension_duration,
+            1 => extension_duration.saturating_add(rng.range(0, 20) as i64),
+            2 => extension_duration.saturating_add(rng.range(0, (len as u64).max(1)) as i64),
+            _ => extension_duration.saturating_mul(rng.range(1, 50) as i64),
+        }
+    };
+    let volume_threshold = match rng.below(5) {
+        0 => 1,
+        1 => rng.log_u128(u128::MAX).max(1),
+        2 => rng.range_u128(1, 1_000) * UNIT,
+        _ => rng.log_u128(10u128.pow(30)).max(1),
+    };
+    let volume_merge_window = match rng.below(4) {
+        0 => 1,
+        1 => rng.range(1, 30) as i64,
+        2 => rng.range(30, 100_000) as i64,
+        _ => {
+            if extreme {
+                i64::MAX
+            } else {
+                rng.range(1, 600) as i64
+            }
+        }
+    };
+    CompParams {
+        start_time,
+        end_time: start_time.saturating_add(len.max(1)),
+        volume_threshold,
+        extension_duration,
+        extension_cap,
+        only_count_increase: rng.chance(1, 3),
+        volume_merge_window,
+    }
+}
+
+impl Direct {
+    fn new(rng: &mut Rng, tag: String, m: &mut Monitor) -> Option<Direct> {
+        let mut svm = new_svm();
+        let payer = key("competition-payer");
+        svm.airdrop(&payer, 1_000_000 * LAMPORTS);
+        let n_traders = rng.range(8, 14) as usize;
+        let traders: Vec<Pubkey> = (0..n_traders).map(|i| key(&format!("trader:{i}"))).collect();
+        for t in &traders {
+            svm.airdrop(t, 100 * LAMPORTS);
+        }
+        // A few rejected parameter sets first (not part of the property; counted only).
+        let now = svm.clock.unix_timestamp;
+        if rng.chance(1, 3) {
+            let mut bad = gen_params(rng, now);
+            match rng.below(5) {
+                0 => bad.start_time = now,
+                1 => bad.end_time = bad.start_time,
+                2 => bad.extension_cap = bad.extension_duration - 1,
+                3 => bad.volume_threshold = 0,
+                _ => bad.volume_merge_window = 0,
+            }
+            match svm.process(&[comp_initialize_ix(payer, &bad)], &[payer]) {
+                Ok(_) => m.count("init_invalid_params_accepted"),
+                Err(_) => m.count("init_invalid_params_rejected"),
+            }
+        }
+        let params = gen_params(rng, now);
+        if let Err((e, _)) = svm.process(&[comp_initialize_ix(payer, &params)], &[payer]) {
+            m.count("init_failed");
+            m.inconclusive(&format!("harness: initialize_competition with valid parameters failed: {e:?} {params:?}"));
+            return None;
+        }
+        m.count("competitions");
+        let comp = competition_pda(&payer, params.start_time);
+        let mut d = Direct { svm, payer, comp, traders, model: Model::default(), td: key("trade-event"), log: vec![], tag, params };
+        d.note(format!("init {:?}", d.params));
+        // Most participants exist from the beginning; the rest join later.
+        for i in 0..n_traders {
+            if rng.chance(4, 5) {
+                d.create_participant(i, m);
+            }
+        }
+        Some(d)
+    }
+
+    fn now(&self) -> i64 {
+        self.svm.clock.unix_timestamp
+    }
+
+    fn note(&mut self, s: String) {
+        if self.log.len() >= 600 {
+            self.log.remove(0);
+        }
+        self.log.push(format!("t={} {s}", self.now()));
+    }
+
+    fn comp_state(&self) -> Competition {
+        comp_load::<Competition>(&self.svm, &self.comp).expect("competition account")
+    }
+
+    fn participant(&self, t: &Pubkey) -> Option<Participant> {
+        comp_load::<Participant>(&self.svm, &participant_pda(&self.comp, t))
+    }
+
+    fn create_participant(&mut self, i: usize, m: &mut Monitor) {
+        let t = self.traders[i];
+        let payer = if i % 2 == 0 { t } else { self.payer };
+        match self.svm.process(&[comp_create_participant_ix(payer, self.comp, t)], &[payer]) {
+            Ok(_) => {
+                m.count("op_create_participant_ok");
+                let existed = self.model.volumes.contains_key(&t);
+                self.model.volumes.entry(t).or_insert(0);
+                self.note(format!("create_participant {i} existed={existed}"));
+            }
+            Err((e, _)) => {
+                m.count("create_participant_failed");
+                self.note(format!("create_participant {i} -> {e:?}"));
+            }
+        }
+    }
+
+    fn witness(&self, extra: Value) -> Value {
+        json!({"history": self.tag, "params": format!("{:?}", self.params), "detail": extra, "ops": self.log})
+    }
+
+    fn op_warp(&mut self, rng: &mut Rng, m: &mut Monitor) {
+        let c = self.comp_state();
+        let now = self.now();
+        let to_end = (c.end_time as i128 - now as i128).clamp(1, 1 << 40) as u64;
+        let win = (c.volume_merge_window.clamp(1, 1 << 40)) as u64;
+        let dt: u64 = match rng.below(12) {
+            0 | 1 => 0,
+            2 => 1,
+            3 => win,
+            4 => win + 1,
+            5 => win.saturating_sub(1),
+            6 => rng.range(1, win.saturating_mul(2).min(1 << 40)),
+            7 => rng.range(1, (to_end / 8).max(1)),
+            8 => {
+                if rng.chance(1, 6) {
+                    to_end
+                } else {
+                    rng.range(1, (to_end / 30).max(1))
+                }
+            }
+            9 => {
+                if now < c.start_time {
+                    (c.start_time - now) as u64
+                } else {
+                    rng.range(1, 5)
+                }
+            }
+            10 => {
+                if rng.chance(1, 10) {
+                    to_end.saturating_add(rng.range(1, 100))
+                } else {
+                    rng.range(1, 3)
+                }
+            }
+            _ => rng.range(1, 20),
+        };
+        let dt = dt.min((i64::MAX - now - 1).max(0) as u64).min(1 << 41);
+        if dt > 0 {
+            self.svm.warp(dt as i64);
+        }
+        m.count("op_warp");
+        self.note(format!("warp {dt}"));
+    }
+
+    /// A volume for `trader` biased towards ties with other traders, the threshold and the type limits.
+    fn gen_volume(&self, rng: &mut Rng, trader: &Pubkey) -> u128 {
+        let cur = self.model.volumes.get(trader).copied().unwrap_or(0);
+        let thr = self.params.volume_threshold;
+        match rng.below(12) {
+            0 => rng.range_u128(1, 10),
+            1 => thr,
+            2 => thr.saturating_sub(1).max(1),
+            3 => thr.saturating_add(1),
+            4 | 5 => {
+                // reach exactly (or just around) another trader's volume
+                let others: Vec<u128> = self.model.volumes.values().copied().filter(|v| *v > cur).collect();
+                if others.is_empty() {
+                    rng.log_u128(10u128.pow(26)).max(1)
+                } else {
+                    let target = *rng.pick(&others);
+                    let d = target - cur;
+                    match rng.below(3) {
+                        0 => d,
+                        1 => d.saturating_add(1),
+                        _ => d.saturating_sub(1).max(1),
+                    }
+                }
+            }
+            6 => rng.log_u128(u128::MAX).max(1),
+            7 => u128::MAX - rng.range_u128(0, 3),
+            8 => (thr / rng.range_u128(2, 5)).max(1),
+            _ => rng.log_u128(10u128.pow(28)).max(1),
+        }
+    }
+
+    fn op_trade(&mut self, rng: &mut Rng, m: &mut Monitor) {
+        let ti = rng.below(self.traders.len() as u64) as usize;
+        let trader = self.traders[ti];
+        let v = self.gen_volume(rng, &trader);
+        let base = if rng.chance(1, 3) { 0 } else { rng.log_u128(u128::MAX - v) };
+        let (before, after) = match rng.below(10) {
+            0 | 1 | 2 => (base.saturating_add(v), base), // decrease
+            3 => (base, base),                           // no size change
+            _ => (base, base.saturating_add(v)),         // increase
+        };
+        // Variants of the delivery.
+        let mut args = CallbackArgs::store_like(2);
+        let mut from_store = true;
+        let mut success = true;
+        let mut event_user = trader;
+        let mut with_event = true;
+        let mut participant_of = trader;
+        let mut signer_is_listed = true;
+        let variant = match rng.below(40) {
+            0 => {
+                success = false;
+                "failed_order"
+            }
+            1 => {
+                with_event = false;
+                "no_trade_event"
+            }
+            2 => {
+                args.authority = key("not-the-callback-authority");
+                from_store = false;
+                "wrong_authority"
+            }
+            3 => {
+                args.authority_bump = args.authority_bump.wrapping_sub(1);
+                from_store = false;
+                "wrong_bump"
+            }
+            4 => {
+                args.action_kind = *rng.pick(&[0u8, 1, 2, 4, 5, 6, 200]);
+                from_store = false;
+                "wrong_action_kind"
+            }
+            5 => {
+                args.callback_version = rng.range(1, 255) as u8;
+                from_store = false;
+                "wrong_callback_version"
+            }
+            6 => {
+                args.extra_account_count = rng.range(0, 1) as u8;
+                from_store = false;
+                "too_few_extra_accounts"
+            }
+            7 => {
+                event_user = self.traders[(ti + 1) % self.traders.len()];
+                "event_of_other_user"
+            }
+            8 => {
+                participant_of = self.traders[(ti + 1) % self.traders.len()];
+                from_store = false;
+                "participant_of_other_trader"
+            }
+            9 => {
+                signer_is_listed = false;
+                from_store = false;
+                "authority_did_not_sign"
+            }
+            10 => {
+                args.extra_account_count = rng.range(3, 255) as u8;
+                "more_extra_accounts"
+            }
+            _ => "plain",
+        };
+        set_trade_data(&mut self.svm, self.td, event_user, before, after);
+        let participant = participant_pda(&self.comp, &participant_of);
+        let i = comp_on_executed_ix(&args, success, self.comp, participant, trader, key("order"), key("position"), with_event.then_some(self.td));
+        let pre = self.comp_state();
+        let now = self.now();
+        let signers: Vec<Pubkey> = if signer_is_listed { vec![self.payer, args.authority] } else { vec![self.payer] };
+        let r = self.svm.process(&[i], &signers);
+        m.count("op_on_executed");
+        m.count(&format!("delivery_{variant}"));
+        let input = ExecInput { from_store, success, trader, event: with_event.then_some((event_user, before, after)), now };
+        match r {
+            Ok(_) => {
+                m.count("on_executed_ok");
+                self.note(format!("on_executed[{variant}] trader={ti} before={before} after={after} -> ok"));
+                let post = self.comp_state();
+                let part = self.participant(&trader);
+                let mut model = std::mem::take(&mut self.model);
+                let wit = |extra: Value| self.witness(extra);
+                after_on_executed(m, &mut model, &pre, &post, part.as_ref(), &input, &wit);
+                self.model = model;
+            }
+            Err((e, _)) => {
+                m.count(&format!("on_executed_rejected_{variant}"));
+                m.count(&format!("on_executed_err_{}", err_class(&e)));
+                self.note(format!("on_executed[{variant}] trader={ti} before={before} after={after} -> {e:?}"));
+            }
+        }
+    }
+
+    /// `on_created` / `on_updated` / `on_closed`: must not disturb the board or the end time.
+    fn op_other_callback(&mut self, rng: &mut Rng, m: &mut Monitor) {
+        let ti = rng.below(self.traders.len() as u64) as usize;
+        let trader = self.traders[ti];
+        let args = CallbackArgs::store_like(1);
+        let participant = participant_pda(&self.comp, &trader);
+        let (name, i) = match rng.below(3) {
+            0 => ("on_created", comp_on_created_ix(&args, self.comp, participant, trader, key("order"), key("position"))),
+            1 => ("on_updated", comp_on_other_ix(&args, false, self.comp, participant, trader, key("order"))),
+            _ => ("on_closed", comp_on_other_ix(&args, true, self.comp, participant, trader, key("order"))),
+        };
+        let pre = self.comp_state();
+        let now = self.now();
+        let r = self.svm.process(&[i], &[self.payer, args.authority]);
+        m.count(&format!("op_{name}"));
+        match r {
+            Ok(_) => {
+                m.count(&format!("{name}_ok"));
+                self.note(format!("{name} trader={ti} -> ok"));
+                let post = self.comp_state();
+                m.eval();
+                let wit = |extra: Value| self.witness(extra);
+                check_end_time(m, &pre, &post, now, &wit);
+                check_board(m, &post, &self.model, &wit);
+            }
+            Err((e, _)) => {
+                m.count(&format!("{name}_rejected"));
+                self.note(format!("{name} trader={ti} -> {e:?}"));
+            }
+        }
+    }
+
+    fn op_close_participant(&mut self, rng: &mut Rng, m: &mut Monitor) {
+        let ti = rng.below(self.traders.len() as u64) as usize;
+        let trader = self.traders[ti];
+        let r = self.svm.process(&[comp_close_participant_ix(trader, self.comp)], &[trader]);
+        m.count("op_close_participant");
+        match r {
+            Ok(_) => {
+                m.count("close_participant_ok");
+                self.model.volumes.remove(&trader);
+                self.model.counted.remove(&trader);
+                self.note(format!("close_participant {ti} -> ok"));
+            }
+            Err((e, _)) => {
+                m.count("close_participant_rejected");
+                self.note(format!("close_participant {ti} -> {e:?}"));
+            }
+        }
+    }
+
+    fn run(&mut self, rng: &mut Rng, m: &mut Monitor, ops: u64) {
+        for _ in 0..ops {
+            match rng.weighted(&[60, 22, 4, 5, 2]) {
+                0 => self.op_trade(rng, m),
+                1 => self.op_warp(rng, m),
+                2 => {
+                    let i = rng.below(self.traders.len() as u64) as usize;
+                    self.create_participant(i, m)
+                }
+                3 => self.op_other_callback(rng, m),
+                _ => self.op_close_participant(rng, m),
+            }
+            if m.has_violations() {
+                break;
+            }
+        }
+        let c = self.comp_state();
+        m.max("max_final_board_len", c.leaderboard.len() as u64);
+        if self.model.counted.len() >= 8 {
+            m.count("histories_with_8_or_more_counted_traders");
+        }
+    }
+}
+
+// ------------------------------------------------------------------------------------------------
+// Driver 2: real orders through the store
+
+struct Real {
+    w: World,
+    comp: Pubkey,
+    traders: Vec<Pubkey>,
+    model: Model,
+    market: usize,
+    tokens: (usize, usize),
+    prices_at: i64,
+    sol_price: u128,
+    log: Vec<String>,
+    tag: String,
+    params: CompParams,
+}
+
+const E18: u128 = 1_000_000_000_000_000_000;
+
+impl Real {
+    fn new(rng: &mut Rng, tag: String, m: &mut Monitor) -> Option<Real> {
+        let mut w = World::bootstrap_store();
+        w.bootstrap_oracle();
+        let sol = w.add_token("SOL", 9, 4, false);
+        let usdc = w.add_token("USDC", 6, 6, false);
+        let market = w.add_market(sol, sol, usdc);
+        let sol_price = rng.range_u128(50, 250);
+        let mut r = Real {
+            w,
+            comp: Pubkey::default(),
+            traders: vec![],
+            model: Model::default(),
+            market,
+            tokens: (sol, usdc),
+            prices_at: 0,
+            sol_price,
+            log: vec![],
+            tag,
+            params: CompParams { start_time: 0, end_time: 0, volume_threshold: 1, extension_duration: 1, extension_cap: 1, only_count_increase: false, volume_merge_window: 1 },
+        };
+        r.refresh_prices();
+        let (sol_mint, usdc_mint) = (r.w.tokens[sol].mint, r.w.tokens[usdc].mint);
+        let lp = r.w.add_user("lp");
+        token::fund_ata(&mut r.w.svm, &lp, &sol_mint, 400_000 * 1_000_000_000);
+        token::fund_ata(&mut r.w.svm, &lp, &usdc_mint, 40_000_000 * 1_000_000);
+        let d = r.w.create_deposit(lp, market, 400_000 * 1_000_000_000, 40_000_000 * 1_000_000, None, None, &[], &[], 0).unwrap_or_else(|(e, _)| panic!("bootstrap create_deposit: {e:?}"));
+        r.w.execute_deposit(d, true).unwrap_or_else(|(e, _)| panic!("bootstrap execute_deposit: {e:?}"));
+        r.w.close_deposit(lp, d).unwrap_or_else(|(e, _)| panic!("bootstrap close_deposit: {e:?}"));
+        if let Err((e, _)) = r.w.init_callback_authority() {
+            panic!("bootstrap step `initialize_callback_authority` failed: {e:?}");
+        }
+        for i in 0..rng.range(8, 10) {
+            let t = r.w.add_user(&format!("trader{i}"));
+            token::fund_ata(&mut r.w.svm, &t, &usdc_mint, 50_000_000 * 1_000_000);
+            token::fund_ata(&mut r.w.svm, &t, &sol_mint, 1_000 * 1_000_000_000);
+            r.traders.push(t);
+        }
+        let now = r.w.svm.clock.unix_timestamp;
+        let start_time = now + rng.range(1, 5) as i64;
+        let len = rng.range(30, 600) as i64;
+        let extension_duration = rng.range(1, 120) as i64;
+        let extension_cap = match rng.below(3) {
+            0 => extension_duration,
+            1 => extension_duration + rng.range(0, 30) as i64,
+            _ => extension_duration * rng.range(1, 20) as i64,
+        };
+        r.params = CompParams {
+            start_time,
+            end_time: start_time + len,
+            volume_threshold: rng.range_u128(100, 60_000) * UNIT,
+            extension_duration,
+            extension_cap,
+            only_count_increase: rng.chance(1, 3),
+            volume_merge_window: rng.range(1, 40) as i64,
+        };
+        let keeper = r.w.keeper;
+        if let Err((e, _)) = r.w.send(&[comp_initialize_ix(keeper, &r.params)], &[keeper]) {
+            m.inconclusive(&format!("harness: initialize_competition (real-order driver) failed: {e:?}"));
+            return None;
+        }
+        r.comp = competition_pda(&keeper, start_time);
+        m.count("competitions");
+        m.count("competitions_real_orders");
+        r.note(format!("init {:?}", r.params));
+        Some(r)
+    }
+
+    fn now(&self) -> i64 {
+        self.w.svm.clock.unix_timestamp
+    }
+
+    fn note(&mut self, s: String) {
+        if self.log.len() >= 400 {
+            self.log.remove(0);
+        }
+        self.log.push(format!("t={} {s}", self.now()));
+    }
+
+    fn witness(&self, extra: Value) -> Value {
+        json!({"history": self.tag, "driver": "real orders", "params": format!("{:?}", self.params), "detail": extra, "ops": self.log})
+    }
+
+    fn refresh_prices(&mut self) {
+        let (sol, usdc) = self.tokens;
+        let p = self.sol_price * E18;
+        for (t, p) in [(sol, p), (usdc, E18)] {
+            if let Err((e, _)) = self.w.set_price(t, p - p / 5000, p, p + p / 5000) {
+                panic!("bootstrap step `set_price` failed: {e:?}");
+            }
+        }
+        self.prices_at = self.now();
+    }
+
+    fn comp_state(&self) -> Competition {
+        comp_load::<Competition>(&self.w.svm, &self.comp).expect("competition account")
+    }
+
+    fn position_size(&self, trader: &Pubkey, is_long: bool) -> u128 {
+        let k = self.w.position_pda(trader, self.market, is_long, false);
+        exchange::load::<gmsol_store::states::Position>(&self.w.svm, &k).map(|p| p.state.size_in_usd).unwrap_or(0)
+    }
+
+    /// The `on_executed` CPI the store made to the competition program in this transaction.
+    fn find_on_executed(meta: &TxMeta) -> Option<&hostsvm::CpiRecord> {
+        meta.cpis.iter().find(|c| c.program_id == COMP_PID && c.data.len() >= 8 && c.data[..8] == *comp::instruction::OnExecuted::DISCRIMINATOR)
+    }
+
+    fn op_trade(&mut self, rng: &mut Rng, m: &mut Monitor) {
+        let ti = rng.below(self.traders.len() as u64) as usize;
+        let trader = self.traders[ti];
+        let is_long = rng.bool();
+        let have = self.position_size(&trader, is_long);
+        let decrease = have > 0 && rng.chance(2, 5);
+        let thr = self.params.volume_threshold;
+        let size: u128 = match rng.below(6) {
+            0 => thr,
+            1 => thr + UNIT,
+            2 => (thr / 2).max(UNIT),
+            3 => rng.range_u128(10, 200) * UNIT,
+            _ => rng.range_u128(200, 80_000) * UNIT,
+        };
+        let mut req = OrderReq::new(if decrease { OrderKind::MarketDecrease } else { OrderKind::MarketIncrease }, self.market, is_long, false);
+        if decrease {
+            req.size_delta_value = if rng.chance(1, 3) { have } else { size.min(have) };
+        } else {
+            req.size_delta_value = size;
+            // collateral in USDC (6 decimals): size / leverage
+            let lev = rng.range_u128(1, 8);
+            req.initial_collateral_delta_amount = ((size / lev / (UNIT / 1_000_000)) as u64).max(20_000_000);
+        }
+        if self.now() != self.prices_at {
+            self.refresh_prices();
+        }
+        let cb = OrderCallback { program: COMP_PID, shared: self.comp, partitioned: participant_pda(&self.comp, &trader) };
+        let existed = comp_load::<Participant>(&self.w.svm, &cb.partitioned).is_some();
+        let pre_ix = comp_create_participant_ix(trader, self.comp, trader);
+        m.count("op_real_order");
+        let order = match self.w.create_order_with_callback(trader, &req, &cb, &[pre_ix]) {
+            Ok(o) => o,
+            Err((e, meta)) => {
+                let c = self.comp_state();
+                let outside = self.now() < c.start_time || self.now() > c.end_time;
+                m.count(if outside { "real_create_rejected_outside_competition_time" } else { "real_create_failed" });
+                if !outside {
+                    m.count(&format!("real_create_err_{}", err_class(&e)));
+                }
+                self.note(format!("create {} trader={ti} long={is_long} size={} -> {e:?} (failed ix {:?})", if decrease { "decrease" } else { "increase" }, req.size_delta_value, meta.failed_ix));
+                return;
+            }
+        };
+        if !existed {
+            self.model.volumes.entry(trader).or_insert(0);
+            m.count("op_create_participant_ok");
+        }
+        m.count("real_create_ok_on_created_delivered");
+        // Sometimes let time pass between creation and execution (merge window / end of the competition).
+        if rng.chance(1, 3) {
+            let dt = match rng.below(3) {
+                0 => 1,
+                1 => self.params.volume_merge_window + 1,
+                _ => rng.range(1, 25) as i64,
+            };
+            self.w.svm.warp(dt);
+            self.refresh_prices();
+        }
+        let pre = self.comp_state();
+        let now = self.now();
+        let r = self.w.execute_order_with_callback(order, &cb, false);
+        match r {
+            Ok(meta) => {
+                let Some(rec) = Self::find_on_executed(&meta) else {
+                    m.count("real_execute_without_on_executed");
+                    self.note(format!("execute trader={ti} -> ok but no on_executed CPI"));
+                    m.inconclusive("harness: an order with callback executed without an on_executed CPI");
+                    return;
+                };
+                // Decode what the store delivered.
+                let success = rec.data.get(11).copied().unwrap_or(0) != 0;
+                let ev_key = rec.accounts.get(6).map(|a| a.pubkey);
+                let event = match ev_key {
+                    Some(k) if k != COMP_PID => exchange::load::<TradeData>(&self.w.svm, &k).map(|td| (td.user, td.before.size_in_usd, td.after.size_in_usd)),
+                    _ => None,
+                };
+                let signed = rec.pda_signers.contains(&callback_authority().0) && rec.accounts.first().map(|a| a.is_signer && a.pubkey == callback_authority().0).unwrap_or(false);
+                if signed {
+                    m.count("real_on_executed_signed_by_callback_authority_pda");
+                }
+                // Cross-check of the direct driver: same accounts / data as the store's CPI.
+                let twin = comp_on_executed_ix(
+                    &CallbackArgs::store_like(2),
+                    success,
+                    self.comp,
+                    cb.partitioned,
+                    trader,
+                    order,
+                    rec.accounts.get(5).map(|a| a.pubkey).unwrap_or_default(),
+                    ev_key.filter(|k| *k != COMP_PID),
+                );
+                let same = twin.data == rec.data && twin.accounts.len() == rec.accounts.len() && twin.accounts.iter().zip(rec.accounts.iter()).all(|(a, b)| a.pubkey == b.pubkey && a.is_signer == b.is_signer);
+                if same {
+                    m.count("real_cpi_equals_direct_driver_instruction");
+                } else {
+                    m.count("real_cpi_differs_from_direct_driver_instruction");
+                    m.inconclusive("harness: the direct driver's on_executed instruction differs from the store's CPI (accounts / data)");
+                }
+                m.count("op_on_executed");
+                m.count("on_executed_ok");
+                m.count(if success { "real_execute_success" } else { "real_execute_soft_failure" });
+                self.note(format!("execute trader={ti} {} long={is_long} size={} -> ok success={success} event={event:?}", if decrease { "decrease" } else { "increase" }, req.size_delta_value));
+                let input = ExecInput { from_store: signed, success, trader, event, now };
+                let post = self.comp_state();
+                let part = comp_load::<Participant>(&self.w.svm, &cb.partitioned);
+                let mut model = std::mem::take(&mut self.model);
+                let wit = |extra: Value| self.witness(extra);
+                after_on_executed(m, &mut model, &pre, &post, part.as_ref(), &input, &wit);
+                self.model = model;
+            }
+            Err((e, _)) => {
+                m.count("real_execute_failed");
+                m.count(&format!("real_execute_err_{}", err_class(&e)));
+                self.note(format!("execute trader={ti} -> {e:?}"));
+            }
+        }
+        // Close (on_closed is a no-op for the competition).
+        let pre = self.comp_state();
+        match self.w.close_order_with_callback(trader, order, &cb) {
+            Ok(meta) => {
+                if meta.cpis.iter().any(|c| c.program_id == COMP_PID) {
+                    m.count("real_close_ok_on_closed_delivered");
+                } else {
+                    m.count("real_close_ok_without_callback");
+                }
+                let post = self.comp_state();
+                m.eval();
+                let now = self.now();
+                let wit = |extra: Value| self.witness(extra);
+                check_end_time(m, &pre, &post, now, &wit);
+                check_board(m, &post, &self.model, &wit);
+            }
+            Err((e, _)) => {
+                m.count("real_close_failed");
+                self.note(format!("close trader={ti} -> {e:?}"));
+            }
+        }
+    }
+
+    fn run(&mut self, rng: &mut Rng, m: &mut Monitor, ops: u64) {
+        // Go to the start of the competition.
+        let dt = self.params.start_time - self.now();
+        if dt > 0 {
+            self.w.svm.warp(dt);
+        }
+        let mut outside = 0;
+        for _ in 0..ops {
+            if rng.chance(1, 3) {
+                let dt = match rng.below(4) {
+                    0 => 1,
+                    1 => self.params.volume_merge_window,
+                    2 => self.params.volume_merge_window + 1,
+                    _ => rng.range(1, 30) as i64,
+                };
+                self.w.svm.warp(dt);
+                self.note(format!("warp {dt}"));
+            }
+            let before = m.counter("real_create_rejected_outside_competition_time");
+            self.op_trade(rng, m);
+            if m.counter("real_create_rejected_outside_competition_time") > before {
+                outside += 1;
+                if outside >= 3 {
+                    break;
+                }
+            }
+            if m.has_violations() {
+                break;
+            }
+        }
+        if self.model.counted.len() >= 8 {
+            m.count("histories_with_8_or_more_counted_traders");
+        }
+    }
+}
+
+pub fn run(args: &Args) -> Option<i32> {
+    let quiet = hostsvm::QuietStdout::new();
+    let mut mon = Monitor::new(
+        args,
+        "random competitions (8–14 traders, random threshold / extension / cap / merge window / only-increase flag) and random \
+         histories of on_executed deliveries (direct with fabricated TradeData, and through real store orders with callback), clock \
+         advances, participant creation / closing and the no-op callbacks; after every successful instruction the board and the end \
+         time are compared with the reference model. A case is non-trivial when the delivery was a counted trade; distinct = hash of \
+         (board volumes after the trade, trade volume, seconds since start)",
+    );
+    let n_shards = args.scale(64, 256);
+    let direct_histories = args.scale(30, 300);
+    let direct_ops = args.scale(220, 300);
+    let real_histories = args.scale(2, 12);
+    let real_ops = args.scale(60, 90);
+    let seed = args.seed;
+    vcommon::monitor::run_shards(&mut mon, args.threads, n_shards, |shard, m| {
+        for h in 0..direct_histories {
+            let mut rng = Rng::derive(seed, shard, 39_000 + h);
+            if let Some(mut d) = Direct::new(&mut rng, format!("seed={seed} shard={shard} direct={h}"), m) {
+                d.run(&mut rng, m, direct_ops);
+            }
+            if m.has_violations() {
+                return;
+            }
+        }
+        for h in 0..real_histories {
+            let mut rng = Rng::derive(seed, shard, 39_500_000 + h);
+            if let Some(mut r) = Real::new(&mut rng, format!("seed={seed} shard={shard} real={h}"), m) {
+                r.run(&mut rng, m, real_ops);
+            }
+            if m.has_violations() {
+                return;
+            }
+        }
+    });
+    drop(quiet);
+    mon.assume("direct driver: the store's callback-authority PDA is listed as a transaction signer (a PDA can only sign through the store's CPI on chain; hostsvm checks signer membership only) and the trade event is a fabricated TradeData account owned by the store program; the real-order driver checks that this instruction is byte-identical to the store's own CPI");
+    mon.assume("a trade is counted when the store delivered it (callback authority, action kind Order, version 0, ≥ 2 extra accounts), the order succeeded, start ≤ now ≤ end (end before this trade's extension), a trade event of the trader is attached and the size change is non-zero (|after − before|, or after − before floored at 0 when only increases count); the cumulative volume saturates at u128::MAX");
+    mon.assume("ties are tolerated: a participant left off a full board may have exactly the last entry's volume; equal volumes may appear in any order");
+    mon.assume("reading of the title: while the board has a free slot every trader with a counted trade is on it");
+    mon.assume("threshold / merge-window logic is not predicted; only the stated end-time bounds are asserted on every successful instruction");
+    mon.require("trades_counted", args.scale(100_000, 1_000_000));
+    mon.require("board_full_with_participants_left_off", args.scale(10_000, 100_000));
+    mon.require("extension_moved_end", args.scale(5_000, 50_000));
+    mon.require("extension_clipped_at_trigger_plus_cap", args.scale(500, 5_000));
+    mon.require("extension_triggered_without_moving_end", args.scale(200, 2_000));
+    mon.require("histories_with_8_or_more_counted_traders", args.scale(200, 2_000));
+    mon.require("real_execute_success", args.scale(500, 5_000));
+    mon.require("real_cpi_equals_direct_driver_instruction", args.scale(500, 5_000));
+    mon.require("tie_with_last_entry_left_off", args.scale(50, 500));
+    Some(mon.finish())
 }
